@@ -77,16 +77,17 @@ Inductive res (A : Type) := Ok (a : A) | Err (e : errk).
 Arguments Ok {A} a.
 Arguments Err {A} e.
 
-(* Variant switches for the recorded findings (DESIGN 2.5): [false] = the
-   behaviour of the code as found (defect present), [true] = the behaviour after
-   the proposed repair.  The harness measures which one the current source
-   exhibits and passes it into every correspondence case. *)
+(* Variant switch for the one recorded finding of the modelled code that is
+   still open (DESIGN 2.5): [false] = the behaviour of the code as found
+   (defect present), [true] = the behaviour after the proposed repair.  The
+   harness measures which one the current source exhibits and passes it into
+   every correspondence case.  (The former switches for negative reduce axes
+   and bool-valued outer are gone: /repo commits ca9a353 and f17fa7b repaired
+   them and the model below follows the repaired code.) *)
 Record variant := mkVar {
-  v_grow : bool;        (* __call__ result space built from the shape of the RESULT *)
-  v_negaxis : bool;     (* negative reduce axes normalised for the remaining partition axes *)
-  v_boolouter : bool }. (* outer: no weighting passed for non-numeric (bool) results *)
-Definition as_found : variant := mkVar false false false.
-Definition repaired : variant := mkVar true true true.
+  v_grow : bool }.      (* __call__ result space built from the shape of the RESULT *)
+Definition as_found : variant := mkVar false.
+Definition repaired : variant := mkVar true.
 
 Section Model.
 Context {T : Type} `{Num T}.
@@ -336,12 +337,11 @@ Definition to_tensor (o : operand) : operand :=
 Definition is_disc (o : operand) : bool := match o with OpDisc _ _ => true | _ => false end.
 Definition ndim (ds : dspace) : nat := length (ts_shape (ds_ts ds)).
 
-(* the axes that REMAIN after reduce, as the code computes them (no
-   normalisation of negative axes) *)
+(* the axes that REMAIN after reduce, as the code computes them *)
 Definition zmem (z : Z) (l : list Z) : bool := existsb (Z.eqb z) l.
-(* repaired variant: a + ndim for negative a *)
+(* negative axes count from the end: a + ndim for negative a (commit ca9a353) *)
 Definition znorm (nd : nat) (z : Z) : Z :=
-  if v_negaxis V && (z <? 0)%Z then (z + Z.of_nat nd)%Z else z.
+  if (z <? 0)%Z then (z + Z.of_nat nd)%Z else z.
 Definition kept_axes (nd : nat) (a : axkw) : list nat :=
   match a with
   | AxAbsent | AxNone => seq 1 (nd - 1)
@@ -466,15 +466,11 @@ Definition disc_ufunc (NP : npsem) (st : store) (ds : dspace) (nout : nat) (m : 
                           let ts :=
                             match ts_w (ds_ts d1), ts_w (ds_ts d2) with
                             | WConst c1, WConst c2 =>
-                                if v_boolouter V && dt_eqb (ts_dt rsp) DBool then rsp
+                                (* only for numeric result dtypes (commit f17fa7b) *)
+                                if dt_eqb (ts_dt rsp) DBool then rsp
                                 else mkTS (ts_shape rsp) (ts_dt rsp) (WConst (c1 * c2)) (ts_exp rsp)
                             | _, _ => rsp
                             end in
-                          (* a weighting is refused for the non-numeric dtype bool *)
-                          if negb (v_boolouter V) &&
-                             (match ts_w (ds_ts d1), ts_w (ds_ts d2), ts_dt rsp with
-                              | WConst _, WConst _, DBool => true | _, _, _ => false end)
-                          then Err EValue else
                           match mk_dspace axes ts with
                           | Ok rs' => Ok ([OpDisc rs' id], st')
                           | Err e => Err e
